@@ -168,6 +168,7 @@ def _main(args):
 
     # 5. violations -> replay files, confirmed in a fresh interpreter -----------------------
     seen = set()
+    unreproducible = []
     for v in total.violations:
         key = (v["oracle"], v["op"], v["signature"])
         if key in seen:
@@ -187,9 +188,14 @@ def _main(args):
             cpath = core.write_replay(cv)
             ok2, out2 = confirm_fresh(cpath, prop, chunk=True)
             if not ok2:
-                say(f"HARNESS-ERROR property={prop} replay {path} did not reproduce in a fresh "
-                    f"interpreter, neither alone nor with its chunk prefix:\n{out}\n{out2}")
-                return 2
+                # depends on something the simulator does not control (e.g. which address the
+                # allocator hands out): never reported as a VIOLATION, because its replay file
+                # would not reproduce; a harness error if nothing else was found
+                unreproducible.append(f"replay {path} did not reproduce in a fresh interpreter, "
+                                      f"neither alone nor with its chunk prefix:\n{out}\n{out2}")
+                say(f"note: a failing history of run {v['run']} (oracle={v['oracle']}) could not be "
+                    "reproduced in a fresh interpreter; not reported")
+                continue
             path = cpath
             say("note: reproduced only together with the preceding runs of its chunk "
                 "(process-level state)")
@@ -199,6 +205,9 @@ def _main(args):
         say("  detail: " + json.dumps(v["detail"], default=repr)[:1500])
     if viol_lines:
         exit_code = 1
+    elif unreproducible:
+        say(f"HARNESS-ERROR property={prop} " + unreproducible[0])
+        return 2
 
     # 5b. stateless clauses riding along (exhaustive small-range enumeration) ------------------
     pure_info = None
